@@ -20,8 +20,8 @@ PROPERTY = "C09"
 LEVEL = "model_checking"
 FANOUT_CHUNK = 2
 RULE = (
-    "fault kinds {NaN/inf in ra|dec|weight|redshift; columns of unequal length (HDF5: which column x shorter/longer by 1..3 x chunk sizes that do / do not divide the lengths); missing column; patch id "
-    "-1|32768|65538|-65535; a centre without object; no patch method; target exists as {catalog, directory "
+    "fault kinds {NaN/inf in ra|dec|weight|redshift (float64 and object columns); columns of unequal length (HDF5: which column x shorter/longer by 1..3 x chunk sizes that do / do not divide the lengths); missing column; patch id "
+    "-1|32768|65538|-65535 (int64 columns; -1, -128, -32768 in int8/int16 columns); a centre without object; no patch method; target exists as {catalog, directory "
     "with foreign content, empty directory, regular file, directory holding only foreign files named patch_*, the same plus a patch_0 directory} x overwrite {F,T}; parent directory missing; exception "
     "injected into the k-th worker task / the k-th writer call; overwrite + late fault} x chunk position "
     "{first, middle, last} x source {data frame, HDF5} x workers {1,2,3}; for W>1 every schedule of the "
@@ -58,8 +58,14 @@ def cases(tier, seed):
         if tier == "quick" and src == "hdf" and (val == "inf" or col in ("dec", "z")):
             continue
         out.append(dict(fault="value", col=col, val=val, pos=pos, source=src))
+    # the same non-finite values in columns of dtype object (as left behind by mixed-type tables)
+    for col, val, pos in itertools.product(("ra", "w"), ("nan", "inf"), ("middle", "last")):
+        out.append(dict(fault="value", col=col, val=val, pos=pos, source="frame", col_dtype="object"))
     for val, pos in itertools.product((-1, 32768, 65538, -65535, 40000), POS):
         out.append(dict(fault="patch-id", val=val, pos=pos, source="frame"))
+    # negative ids in columns stored as narrow integers (no wider than the library's own id type)
+    for (val, dt), pos in itertools.product(((-1, "i1"), (-128, "i1"), (-1, "i2"), (-32768, "i2")), POS):
+        out.append(dict(fault="patch-id", val=val, pos=pos, source="frame", id_dtype=dt))
         if tier != "quick":
             out.append(dict(fault="patch-id", val=val, pos=pos, source="hdf"))
     out.append(dict(fault="length", source="hdf"))
@@ -126,11 +132,11 @@ class Scenario:
         self.ncen = 3
         if f == "value":
             v = dict(nan=np.nan, inf=np.inf)[case["val"]]
-            cols[case["col"]] = cols[case["col"]].copy()
+            cols[case["col"]] = cols[case["col"]].copy().astype(case.get("col_dtype", "f8"))
             cols[case["col"]][POS[case["pos"]]] = v
         if f == "patch-id":
             self.mode = "ids"
-            cols["pid"] = cols["pid"].copy()
+            cols["pid"] = cols["pid"].copy().astype(case.get("id_dtype", "i8"))
             cols["pid"][POS[case["pos"]]] = case["val"]
         if f == "missing-column":
             self.kw["weight_name"] = "nope"
